@@ -175,6 +175,20 @@ class Ctx(object):
                 remaining = max(0, remaining - counter[0])
             except hypothesis.errors.Unsatisfiable:
                 raise HarnessError('generator for %s unsatisfiable' % name)
+            except BaseException as e:
+                # Hypothesis wraps a failure that did not reproduce on its immediate re-run (FlakyFailure, an
+                # exception group). The oracle did observe the discrepancy against the real library, so it is
+                # reported (marked as not reproduced), not turned into a harness error.
+                if 'Flaky' in type(e).__name__ and 'd' in last:
+                    d = last['d']
+                    self.violation(d.bucket, d.message + ' [observed once; did not reproduce on immediate re-run]',
+                                   d.case)
+                    self.suppressed.add(d.bucket)
+                    self.klass('flaky_failure')
+                    rounds += 1
+                    remaining = max(0, remaining - counter[0])
+                else:
+                    raise
             if self.out_of_time():
                 break
 
